@@ -153,17 +153,34 @@ def splitCopy (s : Store) (minCycle : Nat) (cn : Nat × Nat) : Option (Key × Sn
   (load s ⟨cn.1, cn.2, []⟩).map (fun snap =>
     ((⟨cn.1 - minCycle, cn.2, []⟩ : Key), { snap with cycle := cn.1 - minCycle, acycle := cn.1 - minCycle }))
 
+/-- the checks `splitDatabase` makes BEFORE it closes and moves the file: a database is open, the
+selection is not empty, every selected step has an unlabelled group, no step is selected twice -/
+def splitValid (s : Store) (keep : List (Nat × Nat)) : Bool :=
+  s.isOpen && !keep.isEmpty && keep.all (fun cn => hasKey s ⟨cn.1, cn.2, []⟩)
+    && decide (keep.Nodup)
+
+/-- the part of `splitDatabase` after the file was moved aside (`none` = it raises there) -/
 def split (s : Store) (keep : List (Nat × Nat)) : Option Store :=
-  if !s.isOpen then none
+  if !splitValid s keep then none
   else if !(keep.all (fun cn => (steps s).contains cn)) then none
   else match (keep.map (·.1)).min? with
     | none => none
     | some minCycle =>
-      if !(keep.all (fun cn => (splitCopy s minCycle cn).isSome)) then none   -- only a labelled group exists
+      if !(keep.all (fun cn => (splitCopy s minCycle cn).isSome)) then none
       else
         let gs := keep.filterMap (splitCopy s minCycle)
         if (gs.map (fun g => name g.1)).eraseDups.length != gs.length then none
         else some { s with groups := gs }
+
+/-- the database after a `splitDatabase` call and whether it succeeded: a request that fails the
+up-front validation is refused with the database untouched; a failure after the file was moved
+(possible only with cycle/node numbers of 100 and above, whose names are not read back) leaves an
+empty database -/
+def splitOp (s : Store) (keep : List (Nat × Nat)) : Store × Bool :=
+  if !splitValid s keep then (s, false)
+  else match split s keep with
+    | some s' => (s', true)
+    | none => ({ s with groups := [] }, false)
 
 /-- `Database.close(completedSuccessfully)`: set the attribute, move the file to the working directory -/
 def close (s : Store) (ok : Bool) : Store :=
